@@ -5,6 +5,7 @@ import (
 	"encoding/json"
 	"fmt"
 	"sort"
+	"sync"
 
 	"github.com/bbva/qed/balloon"
 	"github.com/bbva/qed/crypto/hashing"
@@ -100,6 +101,8 @@ func checkMembershipAll(c *lib.Ctx, cs *c01case, l *Log, allQ bool) {
 		c.Violation(key, fmt.Sprintf("case %s (n=%d, current=%d): %s", cs.ID, cs.N, cur, what), cs)
 	}
 	done := map[string]bool{}
+	var wg sync.WaitGroup
+	defer wg.Wait()
 	for v := uint64(0); v <= cur; v++ {
 		d := l.RH.Digests[v]
 		if done[string(d)] {
@@ -150,27 +153,36 @@ func checkMembershipAll(c *lib.Ctx, cs *c01case, l *Log, allQ bool) {
 				return
 			}
 			snap := &balloon.Snapshot{EventDigest: d, HistoryDigest: l.Snaps[q].HistoryDigest, HyperDigest: curSnap.HyperDigest, Version: q}
-			var ok1, ok2 bool
-			pan, msg = lib.Recover(func() { ok1 = proof.DigestVerify(hashing.Digest(d), snap) })
-			if pan || !ok1 {
-				fail("C01:verify-inprocess", fmt.Sprintf("genuine proof for event at %d, query version %d rejected by the verifier (actual=%d) %s", rep, q, proof.ActualVersion, msg))
-				return
-			}
-			wp, _, werr := wireMembership(proof)
-			if werr != nil {
-				fail("C01:wire", fmt.Sprintf("wire round trip failed: %v", werr))
-				return
-			}
-			pan, msg = lib.Recover(func() { ok2 = wp.DigestVerify(hashing.Digest(d), snap) })
-			if pan || !ok2 {
-				fail("C01:verify-wire", fmt.Sprintf("genuine proof for event at %d, query version %d rejected after the JSON round trip %s", rep, q, msg))
-				return
-			}
-			c.Count("proofs_verified", 2)
+			// verification is independent of the balloon: run it on the verifier pool
+			wg.Add(1)
+			verifySem <- struct{}{}
+			go func(proof *balloon.MembershipProof, d []byte, rep, q uint64) {
+				defer wg.Done()
+				defer func() { <-verifySem }()
+				var ok1, ok2 bool
+				pan, msg := lib.Recover(func() { ok1 = proof.DigestVerify(hashing.Digest(d), snap) })
+				if pan || !ok1 {
+					fail("C01:verify-inprocess", fmt.Sprintf("genuine proof for event at %d, query version %d rejected by the verifier (actual=%d) %s", rep, q, proof.ActualVersion, msg))
+					return
+				}
+				wp, _, werr := wireMembership(proof)
+				if werr != nil {
+					fail("C01:wire", fmt.Sprintf("wire round trip failed: %v", werr))
+					return
+				}
+				pan, msg = lib.Recover(func() { ok2 = wp.DigestVerify(hashing.Digest(d), snap) })
+				if pan || !ok2 {
+					fail("C01:verify-wire", fmt.Sprintf("genuine proof for event at %d, query version %d rejected after the JSON round trip %s", rep, q, msg))
+					return
+				}
+				c.Count("proofs_verified", 2)
+			}(proof, d, rep, q)
 			c.Seen("tree_shapes", fmt.Sprintf("bitlen%d/trail1s%d", bitlen(q), trailingOnes(q)))
 		}
 	}
 }
+
+var verifySem = make(chan struct{}, 12)
 
 func bitlen(v uint64) int {
 	n := 0
@@ -190,7 +202,7 @@ func trailingOnes(v uint64) int {
 func RunC01(c *lib.Ctx) {
 	c.Rule = "case = one log built on the real balloon (digest family incl. prefix-sharing up to 255 bits and re-inserted duplicates, size crossing powers of two, Add/AddBulk partition, back-end); at seeded check points every inserted event is queried at every query version (logs <= 48) or a stratified set (reported, +1, +2, 2^j-1, 2^j, 2^j+1, mid, current-1, current) and each proof is verified in-process and after the JSON wire round trip against (history digest of snapshot q, hyper digest of current snapshot); non-trivial = log >= 2 events; distinct by (family, n, backend, partition shape, duplicates)."
 	c.Assume = []string{"snapshots used for verification are those issued by Add/AddBulk (C04 separately pins them to the reference trees)", "ground truth of 'really inserted at' = the harness's own record of the digest sequence", "SHA-256"}
-	ncases := c.Q(48, 600)
+	ncases := c.Q(36, 600)
 	r0 := c.Rand("cases")
 	type plan struct {
 		cs      c01case
@@ -240,7 +252,7 @@ func RunC01(c *lib.Ctx) {
 		}
 		plans[i] = plan{cs, ds, ops, be, checkAt}
 	}
-	parallel(ncases, 10, func(i int) {
+	parallel(ncases, workersN(), func(i int) {
 		p := plans[i]
 		if c.Only != "" && c.Only != p.cs.ID {
 			return
